@@ -13,6 +13,9 @@ type Vector struct {
 
 // NewVector creates a new Vector. If fillPtr is not used then it should be -1.
 func NewVector(dim int, elementType Symbol, initElement Object, elements List, adjustable bool) *Vector {
+	if dim < 0 || ArrayMaxDimension < dim {
+		TypePanic(NewScope(), 0, "dimension", Fixnum(dim), "non-negative fixnum no larger than array-dimension-limit")
+	}
 	if elements == nil {
 		elements = make(List, dim)
 		for i := dim - 1; 0 <= i; i-- {
